@@ -384,6 +384,8 @@ let run_simcase () =
   expect "ARMS"; let arms = next_ints () in
   expect "NB"; let nb = next_int () in
   let ms = List.init nb (fun _ -> read_bandit arms) in
+  expect "QUICK"; let quick = next_bool () in
+  expect "TOTAL"; let total = read_batch () in
   expect "TRAIN"; let train = read_batch () in
   let train_orcs = List.init nb (fun _ -> read_oracle ()) in
   let online = (match next () with "offline" -> false | "online" -> true | s -> failwith ("sim mode " ^ s)) in
@@ -398,18 +400,42 @@ let run_simcase () =
   read_tape ();
   expect "END";
   (try
-     let trained = sim_train_all fnum (=) tape_rng ms train train_orcs in
+     let trained = sim_train_all fnum (=) tape_rng quick ms train train_orcs in
      let res =
        if online then sim_online fnum (=) tape_rng trained O batches orcs
        else (match batches, orcs with
              | [b], [o] -> sim_offline fnum (=) tape_rng trained b o
              | _ -> failwith "offline needs one batch") in
-     List.iteri (fun i (_, rep) ->
+     let pstats (l : (int * float stats) list) =
+       String.concat " " (List.map (fun (a, st) -> Printf.sprintf "%d:%d:%s:%s:%s:%s:%s" a (int_of_z st.st_count) (fbits st.st_sum)
+                                       (fbits st.st_min) (fbits st.st_max) (fbits st.st_mean) (fbits st.st_std)) l) in
+     let postats (l : (int * float stats option) list) =
+       String.concat " " (List.map (fun (a, o) -> match o with
+           | None -> Printf.sprintf "%d:nan" a
+           | Some st -> Printf.sprintf "%d:%d:%s:%s:%s:%s:%s" a (int_of_z st.st_count) (fbits st.st_sum)
+                          (fbits st.st_min) (fbits st.st_max) (fbits st.st_mean) (fbits st.st_std)) l) in
+     let train_stats = arm_stats fnum (=) arms train.b_ds train.b_rs in
+     let test_ds = List.concat (List.map (fun b -> b.b_ds) batches) and test_rs = List.concat (List.map (fun b -> b.b_rs) batches) in
+     Printf.printf "S %s 1000 armstats_total %s\n" cid (pstats (arm_stats fnum (=) arms total.b_ds total.b_rs));
+     Printf.printf "S %s 1000 armstats_train %s\n" cid (pstats train_stats);
+     Printf.printf "S %s 1000 armstats_test %s\n" cid (pstats (arm_stats fnum (=) arms test_ds test_rs));
+     List.iteri (fun i (b, rep) ->
          match rep with
          | None -> Printf.printf "R %s %d failed\n" cid i
          | Some (preds, exps) ->
              Printf.printf "R %s %d preds %s\n" cid i (String.concat " " (List.map parm preds));
-             Printf.printf "S %s %d exps %s\n" cid i (String.concat " | " (List.map pexp exps))) res
+             Printf.printf "S %s %d exps %s\n" cid i (String.concat " | " (List.map pexp exps));
+             let ev key lo ds rs =
+               List.iter (fun (sname, sf) ->
+                   match sim_evaluate fnum (=) arms sf train_stats b preds (nat_of_int lo) ds rs with
+                   | None -> Printf.printf "S %s %d ev_%s_%s failed\n" cid i key sname
+                   | Some l -> Printf.printf "S %s %d ev_%s_%s %s\n" cid i key sname (postats l))
+                 [("min", (fun st -> st.st_min)); ("mean", (fun st -> st.st_mean)); ("max", (fun st -> st.st_max))] in
+             ev "total" 0 test_ds test_rs;
+             if online then begin
+               let lo = ref 0 in
+               List.iteri (fun k bt -> ev (string_of_int k) !lo bt.b_ds bt.b_rs; lo := !lo + List.length bt.b_ds) batches
+             end) res
    with
    | Model_error msg -> Printf.printf "E %s %s\n" cid msg
    | Stack_overflow -> Printf.printf "E %s stack-overflow\n" cid);
